@@ -2,7 +2,7 @@
 kinds count (K1), ContinueAfter is silent and does not consult the scheduler (K3/K4), time limit between iterations (K1)."""
 from engine import kinds
 from engine.facts import Site, Slicer, norm, operand_local, control_deps, last_field
-from engine.slicing import FlowSlicer, expand_closure_labels
+from engine.slicing import FlowSlicer, expand_closure_labels, resolve_upvars
 
 CRATES = {"shuttle_engine", "shuttle_schedulers", "shuttle"}
 EXPLANATION = (
@@ -100,7 +100,7 @@ def r2_both_kinds_count(ctx):
             st = b.at(s)
             ok = False
             if kind == "assign" and st.get("k") == "assign":
-                labs = expand_closure_labels(prog, FlowSlicer(b, control=False).operand_labels(st["rv"]["ops"][0], s)) if st["rv"].get("ops") else set()
+                labs = expand_closure_labels(prog, resolve_upvars(prog, b, FlowSlicer(b, control=False).operand_labels(st["rv"]["ops"][0], s))) if st["rv"].get("ops") else set()
                 ok = ("call:" + CS + "len") in labs and not any(l.startswith("field:") and l.endswith(("context_switches", ".steps")) for l in labs)
             ctx.ob("C13.R2", "reset-in-schedule-length-units|" + k, ok,
                    "`%s` sets steps_reset_at to CurrentSchedule::len()" % k if ok else
